@@ -255,6 +255,9 @@ def judge_case(ctx, case, scratch, state, corrupt=None):
             ctx.violation("C26:%s:%s%s" % (case.kind, sym, fs), "%s [%s]: route_to(%d -> %d) killed the process (%s): %s" % (case.id, case.describe(), a, b, res.status, (reps or res.noise)[:2]), w)
             verdict = "bad"
         remaining = remaining[n + 1:]
+        if n == 0 and attempt >= 2 and remaining:      # dies before the first answer twice in a row: the platform itself cannot be built
+            ctx.count("pairs_not_asked_platform_cannot_be_built", len(remaining))
+            break
         if attempt >= 4 and remaining:
             ctx.count("pairs_not_asked_after_repeated_crashes", len(remaining))
             break
